@@ -80,7 +80,7 @@ CHECKS = {
          "Function calls are active from application, operators while their sub-forms run, macros only during expansion; callee call sites of calls made by builtins on the program's behalf are not compared; error classes the statement does not name are only required to lie inside the source; a function bound under several global names may be reported under any of them.",
          "DESIGN.md 4/C18"),
  "C19": ("exploration", "differential runtime monitor: the real linter (the three configurations cmd/lint.go can produce) against the real evaluator's argument binder on generated one-call sources; largely exhaustive",
-         "Exhaustive: every name in the default registry enumerated at run time (135 core names + 112 stdlib functions) x k = 0..max+2 arguments (bare and lisp:-qualified, keyword tails for &key), all 72 defun formals lists x k = 0..6, and 31 shadowing context shapes x 9 builtin names x 6 shadow values x k = 0..4; plus sampled variants under wrappers. A call is 'reported' when builtin-arity / if-arity / user-arity flags the call form; it 'fails binding' when evaluation ends in one of the binder's errors with the callee on top of the error's call stack; which binding a call reaches is decided by evaluating (probe in the shadow body, control run).",
+         "Exhaustive: every name in the default registry enumerated at run time (135 core names + 112 stdlib functions) x k = 0..max+2 arguments (bare and lisp:-qualified, keyword tails for &key), all 72 defun formals lists x k = 0..6, 31 shadowing context shapes x 9 builtin names x 6 shadow values x k = 0..4, and one name defined twice (9 placements of the call before/between/after the definitions and in functions invoked between/after them, in one package or two x 4 defun/defmacro pairs x 20 ordered pairs of formals lists x k = 0..3); plus sampled variants under wrappers. A call is 'reported' when builtin-arity / if-arity / user-arity flags the call form; it 'fails binding' when evaluation ends in one of the binder's errors with the callee on top of the error's call stack; which binding or definition a call reaches is decided by evaluating (probe in the shadow / definition body, control run recording what the name is bound to at the call).",
          "Binding failure is recognised by the binder's message classes and the error's call stack; &key signatures and stdlib names are judged in one direction only; local functions that fail binding owe no report (notes/NOTES-C19.md).",
          "DESIGN.md 4/C19"),
  "C20": ("exploration", "reference-model runtime monitor over real sandboxes: an in-memory symlink-aware file-system model decides which file a location may serve; syscall-level monitor (strace) and the real elps run binary in the driver phase",
